@@ -100,8 +100,9 @@ Definition gcdext_step (s : gst) : gst + gst :=
     inl {| g_ts := g_ns s; g_tt := g_nt s; g_tr := g_nr s;
            g_ns := g_ts s - q * g_ns s; g_nt := g_tt s - q * g_nt s; g_nr := r |}.
 
+(* this_s starts at 0 when a = b = 0 (gcd(0,0) = 0 with both cofactors 0, as mpz_gcdext) *)
 Definition gcdext_init (a b : Z) : gst :=
-  {| g_ts := 1; g_tt := 0; g_tr := a; g_ns := 0; g_nt := 1; g_nr := b |}.
+  {| g_ts := (if (a =? 0) && (b =? 0) then 0 else 1); g_tt := 0; g_tr := a; g_ns := 0; g_nt := 1; g_nr := b |}.
 
 Definition gcdext_fuel (b : Z) : positive := Z.to_pos (Z.abs b + 2).
 
@@ -135,7 +136,7 @@ Definition mp_powm (base exp m : Z) : res Z :=
     end
   else
     do r <- bpowm base exp m;
-    Ok (if r <? 0 then r + m else r).
+    Ok (if r <? 0 then r + Z.abs m else r).
 
 (* ------------------------------------------------------------------ integer roots (Newton) *)
 (* step(n, i, x) = ((n-1)*x + i / x^(n-1)) / n *)
@@ -206,9 +207,9 @@ Definition luc_matrix (n : N) : mat :=
 Definition mp_fib_ui (n : N) : Z := m01 (fib_matrix n).
 Definition mp_fib2_ui (n : N) : Z * Z := let r := fib_matrix n in (m01 r, m11 r).
 Definition mp_lucnum_ui (n : N) : Z := m10 (luc_matrix n).
-Definition mp_lucnum2_ui (n : N) : res (Z * Z) :=
-  if (n =? 0)%N then ErrExn EXN_STD
-  else let r := luc_matrix (n - 1) in Ok (m00 r, m10 r).
+Definition mp_lucnum2_ui (n : N) : Z * Z :=
+  if (n =? 0)%N then (2, -1)
+  else let r := luc_matrix (n - 1) in (m00 r, m10 r).
 
 (* ------------------------------------------------------------------ factorial, binomial *)
 (* res = 1; for (i = 2; i <= n; ++i) res *= i; *)
@@ -226,7 +227,9 @@ Section WithPrimeTest.
   (* miller_rabin_test(i, 25) *)
   Variable mr : Z -> res bool.
 
+  (* if (i < 0) return mp_probab_prime_p(mp_abs(i), retries); *)
   Definition mp_probab_prime_p (i : Z) : res bool :=
+    let i := if i <? 0 then Z.abs i else i in
     if Z.rem i 2 =? 0 then Ok (i =? 2) else mr i.
 
   (* while (!probab_prime(candidate)) candidate += 2; *)
@@ -321,7 +324,7 @@ Definition mp_jacobi (a n : Z) : res Z :=
   else unchecked_jacobi (jacobi_fuel n) a n.
 
 Definition mp_kronecker (a n : Z) : res Z :=
-  if n =? 0 then ErrExn EXN_STD
+  if n =? 0 then Ok (if (a =? 1) || (a =? -1) then 1 else 0)
   else
     let kr_a_u := if (n <? 0) && (a <? 0) then -1 else 1 in
     let st := strip_twos (Z.abs n) in
